@@ -338,27 +338,40 @@ Lemma task_start_shape now sys t a a1 o t' :
   ms_task_start now sys t a = (a1, o, Some t') ->
   a1 = a /\ o = [] /\ ms_task_type t' = ms_task_type t /\ ms_is_read_task t' = ms_is_read_task t /\
   (forall b, flags_guard t b -> flags_guard t' b) /\
-  (forall p, t' = MsTLink p <-> t = MsTLink p).
+  (forall p, t' = MsTLink p <-> t = MsTLink p) /\ is_user_task t' = is_user_task t.
 Proof.
   unfold ms_task_start.
   assert (Same : forall t0, (a, @nil ms_obs, Some t0) = (a1, o, Some t') ->
             a1 = a /\ o = [] /\ ms_task_type t' = ms_task_type t0 /\ ms_is_read_task t' = ms_is_read_task t0 /\
-            (forall b, flags_guard t0 b -> flags_guard t' b) /\ (forall p, t' = MsTLink p <-> t0 = MsTLink p)).
+            (forall b, flags_guard t0 b -> flags_guard t' b) /\ (forall p, t' = MsTLink p <-> t0 = MsTLink p)
+            /\ is_user_task t' = is_user_task t0).
   { intros t0 H; inversion H; subst.
-    split; [reflexivity|split; [reflexivity|split; [reflexivity|split; [reflexivity|split]]]].
+    split; [reflexivity|split; [reflexivity|split; [reflexivity|split; [reflexivity|split; [|split]]]]].
     - intros b Hb; exact Hb.
-    - intros p; split; intros E; exact E. }
+    - intros p; split; intros E; exact E.
+    - reflexivity. }
   assert (Ts : forall st st' p, t = MsTTimeSync st p -> (a, @nil ms_obs, Some (MsTTimeSync st' p)) = (a1, o, Some t') ->
             a1 = a /\ o = [] /\ ms_task_type t' = ms_task_type t /\ ms_is_read_task t' = ms_is_read_task t /\
-            (forall b, flags_guard t b -> flags_guard t' b) /\ (forall p, t' = MsTLink p <-> t = MsTLink p)).
+            (forall b, flags_guard t b -> flags_guard t' b) /\ (forall p, t' = MsTLink p <-> t = MsTLink p)
+            /\ is_user_task t' = is_user_task t).
   { intros st st' p Et H; inversion H; subst.
-    split; [reflexivity|split; [reflexivity|split; [reflexivity|split; [reflexivity|split]]]].
+    split; [reflexivity|split; [reflexivity|split; [reflexivity|split; [reflexivity|split; [|split]]]]].
     - intros b _. exact I.
-    - intros q; split; intros E; discriminate. }
+    - intros q; split; intros E; discriminate.
+    - reflexivity. }
   destruct t as [| m | m | m | m | id m | st p | m tok | tok | p]; try (apply Same).
   destruct st as [t0 | [ts|] | ts | ts]; try (apply Same).
   all: destruct (ms_system_time sys now) as [stm|];
     [ eapply Ts; reflexivity | destruct (ms_tsync_report _ _ _ _); intros H; inversion H ].
+Qed.
+
+Lemma get_next_task_not_user a now t : ms_get_next_task a now = MsNNow t ->
+  is_user_task t = false /\ (forall p, t = MsTLink p -> p = None).
+Proof.
+  intros H. pose proof (get_next_task_guards a now t H) as G.
+  destruct t as [| m | m | m | m | id m | st [p|] | m tok | tok | [p|]]; cbn [is_user_task];
+    try (split; [reflexivity|intros q Hq; inversion Hq; reflexivity]);
+    cbn in G; destruct G as [_ G]; exfalso; apply G; reflexivity.
 Qed.
 
 Lemma assoc_next_task_now fuel now sys : forall a a1 o t',
@@ -368,20 +381,483 @@ Proof.
   induction fuel as [|k IH]; intros a a1 o t'; cbn [ms_assoc_next_task]; [intros H; inversion H|].
   destruct (ms_get_next_task a now) as [|t|nb] eqn:Eg; try (intros H; inversion H; fail).
   destruct (ms_task_start now sys t a) as [[a2 o2] [t2|]] eqn:Es.
-  - apply task_start_shape in Es as (E1 & E2 & E3 & E4 & E5 & E6).
+  - apply task_start_shape in Es as (E1 & E2 & E3 & E4 & E5 & E6 & E7).
     intros H; inversion H; subst; clear H.
-    pose proof (get_next_task_flags _ _ _ Eg) as G. split; [apply E5; exact G|].
-    pose proof (get_next_task_guards _ _ _ Eg) as GG.
-    split.
-    + intros p Hp. apply E6 in Hp. subst t. destruct p as [p|]; [|reflexivity].
-      cbn in GG. destruct GG as [_ GG]. exfalso; apply GG; reflexivity.
-    + destruct t as [| m | m | m | m | id m | st [p|] | m tok | tok | [p|]];
-        try (cbn in GG; destruct GG as [_ GG]; exfalso; apply GG; reflexivity);
-        destruct t' as [| m' | m' | m' | m' | id' m' | st' [p'|] | m' tok' | tok' | [p'|]];
-        cbn in E3, E4 |- *; try reflexivity; try discriminate;
-        try (destruct (E6 (Some p')) as [E6a _]; specialize (E6a eq_refl); discriminate).
-      all: try (destruct (E6 None) as [_ E6b]; specialize (E6b eq_refl); discriminate).
-      all: admit.
+    pose proof (get_next_task_flags _ _ _ Eg) as G.
+    destruct (get_next_task_not_user _ _ _ Eg) as [U1 U2].
+    split; [apply E5; exact G|]. split.
+    + intros p Hp. apply E6 in Hp. exact (U2 p Hp).
+    + rewrite E7. exact U1.
   - destruct (ms_assoc_next_task k now sys a2) as [[a3 o3] r3] eqn:Ea.
     intros H; inversion H; subst; clear H. eapply IH; exact Ea.
-Admitted.
+Qed.
+
+Lemma find_put addr a1 l : In addr (map ms_a_addr l) -> ms_a_addr a1 = addr ->
+  ms_find_assoc addr (ms_put_assoc a1 l) = Some a1.
+Proof.
+  intros Hin Ha. subst addr. induction l as [|x l IH]; [destruct Hin|]. cbn [ms_put_assoc].
+  destruct (N.eqb (ms_a_addr x) (ms_a_addr a1)) eqn:E; cbn [ms_find_assoc].
+  - rewrite N.eqb_refl. reflexivity.
+  - rewrite E. apply IH. destruct Hin as [H|H]; [|exact H].
+    apply N.eqb_neq in E. congruence.
+Qed.
+
+Lemma auto_pass_spec : forall ring st e st' o r,
+  NoDup (addrs st) -> ms_auto_pass st ring e = (st', o, r) ->
+  TR st o st' /\ Forall neutral o /\ ms_m_phase st' = ms_m_phase st /\
+  match r with
+  | MsSNow addr t =>
+      exists a1, ms_find_assoc addr (ms_m_assocs st') = Some a1 /\ flags_guard t a1 /\
+                 (forall p, t = MsTLink p -> p = None) /\ is_user_task t = false
+  | _ => True
+  end.
+Proof.
+  induction ring as [|addr ring IH]; intros st e st' o r Nd; cbn [ms_auto_pass].
+  - intros H; inversion H; subst. split; [apply TR_refl|]. split; [constructor|]. split; [reflexivity|].
+    destruct e; exact I.
+  - destruct (ms_find_assoc addr (ms_m_assocs st)) as [a|] eqn:Ef; [|apply IH; exact Nd].
+    pose proof (find_assoc_some _ _ _ Ef) as [Ia Eaddr].
+    destruct (ms_assoc_next_task 3 (ms_m_now st) (ms_m_systime st) a) as [[a1 o1] r1] eqn:Ea.
+    pose proof (assoc_next_task_LS _ _ _ _ _ _ _ Ea) as [L N1].
+    pose proof (put_TR st a o1 a1 Nd Ia L) as T1.
+    set (st1 := ms_set_assocs st (ms_put_assoc a1 (ms_m_assocs st))) in *.
+    assert (Nd1 : NoDup (addrs st1)) by (destruct T1 as [A _]; rewrite A; exact Nd).
+    destruct r1 as [[|t|nb]|].
+    + destruct (ms_auto_pass st1 ring e) as [[st2 o2] r2] eqn:Er.
+      destruct (IH _ _ _ _ _ Nd1 Er) as (T2 & N2 & P2 & R2).
+      intros H; inversion H; subst; clear H.
+      split; [eapply TR_trans; eassumption|]. split; [apply Forall_app; split; assumption|].
+      split; [exact P2|exact R2].
+    + intros H; inversion H; subst; clear H.
+      split; [exact T1|]. split; [exact N1|]. split; [reflexivity|].
+      exists a1. split.
+      * cbn. apply find_put.
+        -- apply in_map_iff. exists a. split; [reflexivity|exact Ia].
+        -- destruct L as (LA & _). congruence.
+      * eapply assoc_next_task_now. exact Ea.
+    + destruct (ms_auto_pass st1 ring (ms_min_opt e nb)) as [[st2 o2] r2] eqn:Er.
+      destruct (IH _ _ _ _ _ Nd1 Er) as (T2 & N2 & P2 & R2).
+      intros H; inversion H; subst; clear H.
+      split; [eapply TR_trans; eassumption|]. split; [apply Forall_app; split; assumption|].
+      split; [exact P2|exact R2].
+    + intros H; inversion H; subst; clear H.
+      split; [exact T1|]. split; [exact N1|]. split; [reflexivity|exact I].
+Qed.
+
+Lemma map_next_task_spec st st' o r :
+  NoDup (addrs st) -> ms_map_next_task st = (st', o, r) ->
+  TR st o st' /\ Forall neutral o /\ ms_m_phase st' = ms_m_phase st /\
+  match r with
+  | MsSNow addr t =>
+      is_user_task t = true \/
+      exists a1, ms_find_assoc addr (ms_m_assocs st') = Some a1 /\ flags_guard t a1 /\
+                 (forall p, t = MsTLink p -> p = None) /\ is_user_task t = false
+  | _ => True
+  end.
+Proof.
+  intros Nd. unfold ms_map_next_task.
+  destruct (ms_priority_pass st (ms_m_ring st)) as [[st1 o1] [[addr t]|]] eqn:Ep;
+    destruct (priority_pass_spec _ _ _ _ _ Nd Ep) as (T1 & N1 & P1 & R1).
+  - intros H; inversion H; subst; clear H.
+    split; [exact T1|]. split; [exact N1|]. split; [exact P1|]. left. exact R1.
+  - destruct (ms_auto_pass st1 (ms_m_ring st1) None) as [[st2 o2] r2] eqn:Ea.
+    assert (Nd1 : NoDup (addrs st1)) by (destruct T1 as [A _]; rewrite A; exact Nd).
+    destruct (auto_pass_spec _ _ _ _ _ _ Nd1 Ea) as (T2 & N2 & P2 & R2).
+    intros H; inversion H; subst; clear H.
+    split; [eapply TR_trans; eassumption|]. split; [apply Forall_app; split; assumption|].
+    split; [congruence|]. destruct r; auto.
+Qed.
+
+(* observations without any effect on the history predicates of the associations *)
+Definition quiet (x : ms_obs) : Prop :=
+  (forall X A, obs_effect X A x = None) /\ match x with MsOAssoc _ _ _ => False | _ => True end.
+
+Lemma neutral_quiet o : Forall neutral o -> Forall quiet o.
+Proof.
+  apply Forall_impl. intros x [E L]. split; [exact E|]. destruct x; auto.
+Qed.
+
+Lemma hfold_quiet X A acc h : Forall quiet h -> hfold X A acc h = acc.
+Proof.
+  unfold hfold. revert acc. induction h as [|x h IH]; intros acc F; [reflexivity|].
+  inversion F as [|? ? [Q _] F2]; subst. cbn [fold_left]. unfold hstep at 2. rewrite Q. apply IH. exact F2.
+Qed.
+
+Lemma cfg_in_quiet h A : Forall quiet h -> cfg_in h A = None.
+Proof.
+  induction h as [|x h IH]; [reflexivity|]. intros F. inversion F as [|? ? [_ N1] F2]; subst.
+  cbn [cfg_in]. destruct x; try (apply IH; exact F2). contradiction.
+Qed.
+
+Lemma TR_quiet st n : Forall quiet n -> TR st n st.
+Proof.
+  intros Q. split; [reflexivity|]. split; [|split].
+  - intros a' Ha. exists a'. repeat split; auto. intros X HX. rewrite hfold_quiet by exact Q. exact HX.
+  - intros B _. apply hfold_quiet. exact Q.
+  - intros B. apply cfg_in_quiet. exact Q.
+Qed.
+
+Lemma INVA_quiet st h n : INVA st h -> Forall quiet n -> INVA st (h ++ n).
+Proof. intros I Q. eapply TR_INVA; [exact I|apply TR_quiet; exact Q]. Qed.
+
+Lemma GOOD_cons_start h x rest : start_guard h x -> Forall nostart rest -> GOOD h (x :: rest).
+Proof.
+  intros G F o1 y o2 H. destruct o1 as [|z o1]; cbn [app] in H; inversion H; subst.
+  - rewrite app_nil_r. exact G.
+  - apply Forall_app in F as [_ F]. inversion F; subst. destruct y; cbn in *; auto; contradiction.
+Qed.
+
+(* from the flags of the chosen association to the guard over the history *)
+Lemma flags_to_guard st h a t c :
+  INVA st h -> In a (ms_m_assocs st) -> flags_guard t a -> cfg_in h (ms_a_addr a) = Some c ->
+  match t with
+  | MsTLink None => kind_guard MsKPoll c (ms_a_addr a) h
+  | MsTLink (Some _) => True
+  | _ => kind_guard (ms_task_type t) c (ms_a_addr a) h
+  end.
+Proof.
+  intros [Nd Fl Un Cf] Ia G Hc. rewrite (Cf a Ia) in Hc. inversion Hc; subst c; clear Hc.
+  assert (HCx : ms_is_idle (ms_ts_clear (ms_a_auto a)) = true -> hist HC (ms_a_addr a) h = true)
+    by (intros E; apply (Fl a HC Ia); exact E).
+  assert (HDx : dis_ok (ms_a_cfg a) (ms_a_auto a) = true ->
+                ms_ev_any (ms_c_disable (ms_a_cfg a)) = true -> hist HD (ms_a_addr a) h = true).
+  { unfold dis_ok. intros E1 E2. rewrite E2 in E1. cbn in E1. apply (Fl a HD Ia). exact E1. }
+  assert (HIx : integ_ok (ms_a_cfg a) (ms_a_auto a) = true ->
+                ms_cl_any (ms_c_integrity (ms_a_cfg a)) = true -> hist HI (ms_a_addr a) h = true).
+  { unfold integ_ok. intros E1 E2. rewrite E2 in E1. cbn in E1. apply (Fl a HI Ia). exact E1. }
+  assert (HEx : en_ok (ms_a_cfg a) (ms_a_auto a) = true ->
+                ms_ev_any (ms_c_enable (ms_a_cfg a)) = true -> hist HE (ms_a_addr a) h = true).
+  { unfold en_ok. intros E1 E2. rewrite E2 in E1. cbn in E1. apply (Fl a HE Ia). exact E1. }
+  destruct t as [| m | m | m | m | id m | tst p | m tok | tok | [p|]];
+    cbn [flags_guard ms_task_type kind_guard] in *; auto; intuition.
+Qed.
+
+(* the observations of the scheduling decision itself are completions of user requests only *)
+Definition is_res (x : ms_obs) : Prop := match x with MsORes _ _ _ => True | _ => False end.
+
+Lemma res_out_neutral o : Forall is_res o -> Forall out_neutral o.
+Proof. apply Forall_impl. intros x; destruct x; cbn; auto. Qed.
+Lemma res_nostart o : Forall is_res o -> Forall nostart o.
+Proof. apply Forall_impl. intros x; destruct x; cbn; auto. Qed.
+Lemma res_quiet o : Forall is_res o -> Forall quiet o.
+Proof. apply Forall_impl. intros x; destruct x; cbn; try contradiction. intros _. split; [reflexivity|exact I]. Qed.
+
+Lemma tsync_report_res now p r a a' o : ms_tsync_report now p r a = (a', o) -> Forall is_res o.
+Proof.
+  unfold ms_tsync_report. destruct p; [|destruct r]; intros H; inversion H; subst; repeat constructor.
+Qed.
+
+Lemma task_start_res now sys t a a' o r : ms_task_start now sys t a = (a', o, r) -> Forall is_res o.
+Proof.
+  unfold ms_task_start.
+  destruct t as [| m | m | m | m | id m | tst p | m tok | tok | p];
+    try (intros H; inversion H; subst; constructor).
+  destruct tst as [t0 | [ts|] | ts | ts]; try (intros H; inversion H; subst; constructor).
+  all: destruct (ms_system_time sys now) as [stm|]; [intros H; inversion H; subst; constructor|];
+    destruct (ms_tsync_report now p (Some MsENoSystemTime) a) as [a1 o1] eqn:Er;
+    intros H; inversion H; subst; eapply tsync_report_res; exact Er.
+Qed.
+
+Lemma priority_task_res now sys q : forall a a' o r, ms_priority_task now sys q a = (a', o, r) -> Forall is_res o.
+Proof.
+  induction q as [|[tok uk] q IH]; intros a a' o r; cbn [ms_priority_task].
+  - intros H; inversion H; constructor.
+  - destruct (ms_task_start now sys (ms_user_task tok uk) a) as [[a1 o1] [t'|]] eqn:Es;
+      apply task_start_res in Es.
+    + intros H; inversion H; subst. exact Es.
+    + destruct (ms_priority_task now sys q a1) as [[a2 o2] r2] eqn:Ep. apply IH in Ep.
+      intros H; inversion H; subst. apply Forall_app; split; assumption.
+Qed.
+
+Lemma assoc_next_task_res fuel now sys : forall a a' o r,
+  ms_assoc_next_task fuel now sys a = (a', o, r) -> Forall is_res o.
+Proof.
+  induction fuel as [|k IH]; intros a a' o r; cbn [ms_assoc_next_task].
+  - intros H; inversion H; constructor.
+  - destruct (ms_get_next_task a now) as [|t|nb]; try (intros H; inversion H; constructor).
+    destruct (ms_task_start now sys t a) as [[a1 o1] [t'|]] eqn:Es; apply task_start_res in Es.
+    + intros H; inversion H; subst. exact Es.
+    + destruct (ms_assoc_next_task k now sys a1) as [[a2 o2] r2] eqn:Ep. apply IH in Ep.
+      intros H; inversion H; subst. apply Forall_app; split; assumption.
+Qed.
+
+Lemma priority_pass_res : forall ring st st' o r, ms_priority_pass st ring = (st', o, r) -> Forall is_res o.
+Proof.
+  induction ring as [|addr ring IH]; intros st st' o r; cbn [ms_priority_pass].
+  - intros H; inversion H; constructor.
+  - destruct (ms_find_assoc addr (ms_m_assocs st)) as [a|]; [|apply IH].
+    destruct (ms_priority_task _ _ _ a) as [[a1 o1] [t|]] eqn:Ep; apply priority_task_res in Ep.
+    + intros H; inversion H; subst. exact Ep.
+    + destruct (ms_priority_pass _ ring) as [[st2 o2] r2] eqn:Er. apply IH in Er.
+      intros H; inversion H; subst. apply Forall_app; split; assumption.
+Qed.
+
+Lemma auto_pass_res : forall ring st e st' o r, ms_auto_pass st ring e = (st', o, r) -> Forall is_res o.
+Proof.
+  induction ring as [|addr ring IH]; intros st e st' o r; cbn [ms_auto_pass].
+  - intros H; inversion H; constructor.
+  - destruct (ms_find_assoc addr (ms_m_assocs st)) as [a|]; [|apply IH].
+    destruct (ms_assoc_next_task 3 _ _ a) as [[a1 o1] r1] eqn:Ea; apply assoc_next_task_res in Ea.
+    destruct r1 as [[|t|nb]|].
+    + destruct (ms_auto_pass _ ring e) as [[st2 o2] r2] eqn:Er. apply IH in Er.
+      intros H; inversion H; subst. apply Forall_app; split; assumption.
+    + intros H; inversion H; subst. exact Ea.
+    + destruct (ms_auto_pass _ ring _) as [[st2 o2] r2] eqn:Er. apply IH in Er.
+      intros H; inversion H; subst. apply Forall_app; split; assumption.
+    + intros H; inversion H; subst. exact Ea.
+Qed.
+
+Lemma map_next_task_res st st' o r : ms_map_next_task st = (st', o, r) -> Forall is_res o.
+Proof.
+  unfold ms_map_next_task.
+  destruct (ms_priority_pass st (ms_m_ring st)) as [[st1 o1] [[addr t]|]] eqn:Ep; apply priority_pass_res in Ep.
+  - intros H; inversion H; subst. exact Ep.
+  - destruct (ms_auto_pass st1 (ms_m_ring st1) None) as [[st2 o2] r2] eqn:Ea. apply auto_pass_res in Ea.
+    intros H; inversion H; subst. apply Forall_app; split; assumption.
+Qed.
+
+Lemma INVA_phase st p h : INVA (ms_set_phase st p) h <-> INVA st h.
+Proof. split; intros [A B C D]; constructor; assumption. Qed.
+
+Lemma outstanding_app_neutral h o : Forall out_neutral o -> outstanding (h ++ o) = outstanding h.
+Proof. intros F. unfold outstanding. rewrite out_fold_app. apply out_fold_neutral. exact F. Qed.
+
+Lemma user_kind_guard t c A h : is_user_task t = true -> (forall p, t <> MsTLink p) ->
+  kind_guard (ms_task_type t) c A h.
+Proof.
+  destruct t as [| m | m | m | m | id m | tst [p|] | m tok | tok | [p|]]; cbn; try discriminate; auto;
+    intros _ H; exfalso; eapply H; reflexivity.
+Qed.
+
+Theorem schedule_OK st h st' o :
+  INVA st h -> outstanding h = false -> ms_schedule st = (st', o) ->
+  INVA st' (h ++ o) /\ INVP st' (h ++ o) /\ GOOD h o.
+Proof.
+  intros I0 Out. unfold ms_schedule.
+  destruct (ms_map_next_task st) as [[st1 o1] r] eqn:Em.
+  pose proof (map_next_task_res _ _ _ _ Em) as Res.
+  destruct (map_next_task_spec _ _ _ _ (inv_nodup _ _ I0) Em) as (T1 & N1 & P1 & R).
+  pose proof (TR_INVA _ _ _ _ I0 T1) as I1.
+  assert (Out1 : outstanding (h ++ o1) = false).
+  { rewrite outstanding_app_neutral; [exact Out|apply res_out_neutral; exact Res]. }
+  pose proof (GOOD_nostart h o1 (res_nostart _ Res)) as G1.
+  destruct r as [addr t|nb| |].
+  - (* a task starts *)
+    unfold ms_start_task.
+    destruct t as [| m | m | m | m | id m | tst p | m tok | tok | p].
+    10:{ (* link status *)
+      intros H; inversion H; subst; clear H.
+      split; [|split].
+      - rewrite app_assoc. apply INVA_quiet; [apply INVA_phase; exact I1|].
+        repeat constructor.
+      - exact I.
+      - apply GOOD_app; [exact G1|]. apply GOOD_cons_start; [|constructor].
+        split; [exact Out1|]. intros Hka c Hc. destruct p as [tok|]; [discriminate|].
+        destruct R as [R|(a1 & Fa & Fg & _)]; [discriminate|].
+        apply find_assoc_some in Fa as [Ia Ea]. subst addr.
+        exact (flags_to_guard st1 (h ++ o1) a1 (MsTLink None) c I1 Ia Fg Hc). }
+    all: match goal with
+         | |- context [ms_send_request ?s ?a ?t] =>
+             destruct (ms_send_request s a t) as [[st2 o2] sq] eqn:Es
+         end;
+      intros H; inversion H; subst; clear H;
+      unfold ms_send_request in Es;
+      destruct (ms_find_assoc addr (ms_m_assocs st1)) as [a|] eqn:Ef.
+    all: try (inversion Es; subst; clear Es).
+    all: match goal with
+         | Hf : ms_find_assoc ?addr _ = Some ?a |- _ =>
+             pose proof (find_assoc_some _ _ _ Hf) as [Ia Ea];
+             pose proof (put_TR st1 a [] (ms_set_seq a (ms_seq_next (ms_a_seq a)))
+                           (inv_nodup _ _ I1) Ia (LS_set_seq a _)) as T2;
+             pose proof (TR_INVA _ _ _ _ I1 T2) as I2; rewrite app_nil_r in I2
+         | _ => idtac
+         end.
+    all: split; [|split; [cbn; try reflexivity; exact I|]].
+    all: try (rewrite app_assoc; apply INVA_quiet; [apply INVA_phase; assumption|repeat constructor]).
+    all: apply GOOD_app; [exact G1|]; apply GOOD_cons_start; [|repeat constructor];
+      (split; [exact Out1|]); intros c Hc;
+      (destruct R as [R|(a1 & Fa & Fg & _)];
+       [ cbn in R; try discriminate R; cbn [kind_guard ms_task_type]; exact I
+       | (inversion Fa; subst a1; subst addr;
+          exact (flags_to_guard st1 (h ++ o1) a _ c I1 Ia Fg Hc)) || discriminate Fa ]).
+  - intros H; inversion H; subst; clear H. split; [|split].
+    + rewrite app_assoc. apply INVA_quiet; [apply INVA_phase; exact I1|repeat constructor].
+    + unfold INVP. cbn. rewrite app_assoc, outstanding_app_neutral; [exact Out1|repeat constructor].
+    + apply GOOD_app; [exact G1|apply GOOD_nostart; repeat constructor].
+  - intros H; inversion H; subst; clear H. split; [|split].
+    + rewrite app_assoc. apply INVA_quiet; [apply INVA_phase; exact I1|repeat constructor].
+    + unfold INVP. cbn. rewrite app_assoc, outstanding_app_neutral; [exact Out1|repeat constructor].
+    + apply GOOD_app; [exact G1|apply GOOD_nostart; repeat constructor].
+  - intros H; inversion H; subst; clear H. split; [|split].
+    + rewrite app_assoc. apply INVA_quiet; [apply INVA_phase; exact I1|repeat constructor].
+    + exact I.
+    + apply GOOD_app; [exact G1|apply GOOD_nostart; repeat constructor].
+Qed.
+
+(* ================================================================================================
+   4. The functions of the step preserve the invariant
+   ================================================================================================ *)
+
+Definition OKR (h : list ms_obs) (st' : ms_mstate) (o : list ms_obs) : Prop :=
+  INV st' (h ++ o) /\ GOOD h o.
+
+Lemma outstanding_snoc h x : outstanding (h ++ [x]) = out_step (outstanding h) x.
+Proof. unfold outstanding. rewrite out_fold_app. reflexivity. Qed.
+
+(* ---- observations of the association-level functions never start or end a request ------------ *)
+
+Lemma process_iin_outn now f a a' o : ms_process_iin now f a = (a', o) -> Forall out_neutral o.
+Proof.
+  unfold ms_process_iin, ms_on_restart.
+  destruct (ms_iin_restart f); [destruct (ms_is_idle _)|]; intros H; inversion H; subst; repeat constructor.
+Qed.
+
+Lemma handle_unsolicited_outn now f a a' o : ms_handle_unsolicited now f a = (a', o) -> Forall out_neutral o.
+Proof.
+  unfold ms_handle_unsolicited. destruct (ms_process_iin now f a) as [a1 seen] eqn:E.
+  apply process_iin_outn in E.
+  destruct (negb _); [intros H; inversion H; subst; apply Forall_app; split; [exact E|repeat constructor]|].
+  destruct (negb _); [intros H; inversion H; subst; apply Forall_app; split; [exact E|repeat constructor]|].
+  intros H; inversion H; subst. apply Forall_app; split; [exact E|]. apply Forall_app; split.
+  - destruct (match ms_a_last_unsol a1 with Some _ => _ | None => _ end); [repeat constructor|].
+    destruct (ms_r_ok f); repeat constructor.
+  - destruct (ms_r_con f); repeat constructor.
+Qed.
+
+Lemma task_error_outn now t e r a a' o : ms_task_error now t e r a = (a', o) -> Forall out_neutral o.
+Proof.
+  unfold ms_task_error.
+  destruct t as [| m | m | m | m | id m | tst [p|] | m tok | tok | [p|]];
+    try solve [intros H; inversion H; subst; repeat constructor].
+  - destruct (match e with MsEIin2 => _ | _ => _ end); intros H; inversion H; subst; repeat constructor.
+  - destruct e; intros H; inversion H; subst; repeat constructor.
+  - destruct e; intros H; inversion H; subst; repeat constructor.
+Qed.
+
+Lemma read_complete_outn now t a a' o : ms_read_complete now t a = (a', o) -> Forall out_neutral o.
+Proof.
+  unfold ms_read_complete.
+  destruct t; intros H; inversion H; subst; repeat constructor.
+Qed.
+
+Lemma tsync_report_outn now p r a a' o : ms_tsync_report now p r a = (a', o) -> Forall out_neutral o.
+Proof.
+  unfold ms_tsync_report. destruct p; [|destruct r]; intros H; inversion H; subst; repeat constructor.
+Qed.
+
+Lemma nonread_handle_outn now sys t f a a' o h : ms_nonread_handle now sys t f a = (a', o, h) -> Forall out_neutral o.
+Proof.
+  unfold ms_nonread_handle.
+  destruct t as [| m | m | m | m | id m | tst p | m tok | tok | q];
+    try solve [intros H; inversion H; subst; repeat constructor].
+  - destruct (ms_iin_restart f); intros H; inversion H; subst; repeat constructor.
+  - destruct tst as [t0 | ts | ts | ts];
+      repeat match goal with
+             | |- context [match ?x with _ => _ end] =>
+                 match x with
+                 | ms_tsync_report _ _ _ _ => let E := fresh "E" in destruct x as [? ?] eqn:E; apply tsync_report_outn in E
+                 | _ => destruct x
+                 end
+             end;
+      intros H; inversion H; subst; try assumption; repeat constructor.
+  - destruct (ms_has_objects f); intros H; inversion H; subst; repeat constructor.
+Qed.
+
+(* ---- updating one association, with the notification the caller appends ----------------------- *)
+
+Lemma update_assoc_TR2 st addr f extra st' o :
+  NoDup (addrs st) ->
+  (forall a a' o, f a = (a', o) -> ms_a_addr a = addr -> LS a (o ++ extra) a') ->
+  Forall (about addr) extra -> Forall local extra -> (forall acc, hfold HC addr acc extra = acc) ->
+  ms_update_assoc st addr f = (st', o) ->
+  TR st (o ++ extra) st' /\ ms_m_phase st' = ms_m_phase st.
+Proof.
+  intros Nd Hf Hab Hl Hc. unfold ms_update_assoc.
+  destruct (ms_find_assoc addr (ms_m_assocs st)) as [a|] eqn:E.
+  - destruct (f a) as [a1 o1] eqn:Ef. intros H; inversion H; subst; clear H.
+    apply find_assoc_some in E as [Ia Ea]. split; [|reflexivity].
+    apply put_TR with (a := a); auto.
+  - intros H; inversion H; subst; clear H. split; [|reflexivity]. cbn [app].
+    apply find_assoc_none in E.
+    split; [reflexivity|]. split; [|split].
+    + intros a' Ha'. exists a'. repeat split; auto. intros X HX.
+      rewrite (hfold_other X addr); [exact HX| |exact Hab].
+      intros Heq. apply E. rewrite <- Heq. apply in_map. exact Ha'.
+    + intros B HB. destruct (N.eq_dec B addr) as [->|Hne]; [apply Hc|].
+      apply (hfold_other HC addr); assumption.
+    + intros B. apply cfg_in_local. exact Hl.
+Qed.
+
+Lemma touch_TR st addr : NoDup (addrs st) ->
+  TR st [] (ms_touch st addr) /\ ms_m_phase (ms_touch st addr) = ms_m_phase st.
+Proof.
+  intros Nd. unfold ms_touch.
+  destruct (ms_update_assoc st addr _) as [st1 o1] eqn:E. cbn [fst].
+  assert (o1 = []).
+  { unfold ms_update_assoc in E. destruct (ms_find_assoc _ _); inversion E; reflexivity. }
+  subst o1.
+  apply update_assoc_TR in E; [tauto|exact Nd|].
+  intros a a' o H; inversion H; subst. apply LS_link_activity.
+Qed.
+
+Lemma touch_INVA st h addr : INVA st h -> INVA (ms_touch st addr) h.
+Proof.
+  intros I0. destruct (touch_TR st addr (inv_nodup _ _ I0)) as [T _].
+  pose proof (TR_INVA _ _ _ _ I0 T) as I1. rewrite app_nil_r in I1. exact I1.
+Qed.
+
+Lemma INVP_phase st st' h : ms_m_phase st' = ms_m_phase st -> INVP st' h <-> INVP st h.
+Proof. unfold INVP. intros ->. tauto. Qed.
+
+(* an unsolicited response is handled without leaving the state the session is in *)
+Lemma unsolicited_stay st h src f st1 o1 :
+  INVA st h -> ms_unsolicited st src f = (st1, o1) ->
+  INVA st1 (h ++ o1) /\ ms_m_phase st1 = ms_m_phase st /\ Forall local o1 /\ Forall out_neutral o1.
+Proof.
+  intros I0. unfold ms_unsolicited. intros E.
+  assert (On : Forall out_neutral o1).
+  { unfold ms_update_assoc in E. destruct (ms_find_assoc src (ms_m_assocs st)) as [a|]; [|inversion E; constructor].
+    destruct (ms_handle_unsolicited (ms_m_now st) f a) as [a1 o] eqn:Eh. inversion E; subst.
+    eapply handle_unsolicited_outn; exact Eh. }
+  apply update_assoc_TR in E; [|exact (inv_nodup _ _ I0)|intros a a' o; apply handle_unsolicited_LS].
+  destruct E as (T & P & L). split; [eapply TR_INVA; eassumption|]. auto.
+Qed.
+
+(* after a completion has been recorded in the history, back to the top of the run loop *)
+Lemma complete_OK st1 h o1 st' o2 :
+  INVA st1 (h ++ o1) -> Forall nostart o1 -> outstanding (h ++ o1) = false ->
+  ms_task_done st1 = (st', o2) -> OKR h st' (o1 ++ o2).
+Proof.
+  intros I1 Ns Out. unfold ms_task_done. intros E.
+  apply schedule_OK with (h := h ++ o1) in E; [|apply INVA_phase; exact I1|exact Out].
+  destruct E as (I2 & P2 & G2). split.
+  - rewrite app_assoc. split; assumption.
+  - apply GOOD_app; [apply GOOD_nostart; exact Ns|exact G2].
+Qed.
+
+Lemma fail_task_OK st h dest t k e r st' o :
+  INVA st h -> k = ms_task_type t -> ms_fail_task st dest t k e r = (st', o) -> OKR h st' o.
+Proof.
+  intros I0 Hk. unfold ms_fail_task.
+  destruct (ms_update_assoc st dest _) as [st1 o1] eqn:Eu.
+  destruct (ms_task_done st1) as [st2 o2] eqn:Ed.
+  intros H; inversion H; subst; clear H.
+  assert (L1 : Forall local o1 /\ Forall out_neutral o1).
+  { unfold ms_update_assoc in Eu. destruct (ms_find_assoc dest (ms_m_assocs st)) as [a|]; [|inversion Eu; split; constructor].
+    destruct (ms_task_error (ms_m_now st) t e r a) as [a1 ox] eqn:Ee. inversion Eu; subst.
+    split; [|eapply task_error_outn; exact Ee].
+    pose proof (task_error_LS _ _ _ _ _ _ _ Ee) as (_ & _ & _ & _ & LL).
+    apply Forall_app in LL as [LL _]. exact LL. }
+  apply update_assoc_TR2 with (extra := [MsOFail (ms_m_now st) dest (ms_task_type t) e]) in Eu.
+  - destruct Eu as [T P]. rewrite app_assoc. eapply complete_OK.
+    + eapply TR_INVA; eassumption.
+    + apply Forall_app. split; [apply local_nostart; tauto|repeat constructor].
+    + rewrite app_assoc, outstanding_snoc. reflexivity.
+    + exact Ed.
+  - exact (inv_nodup _ _ I0).
+  - intros a a' ox Hx Ha. subst dest. eapply task_error_LS. exact Hx.
+  - repeat constructor.
+  - repeat constructor.
+  - intros acc. unfold hfold. cbn [fold_left]. unfold hstep. cbn [obs_effect].
+    destruct e; try reflexivity. destruct (N.eqb dest dest); [destruct (ms_task_type t)|]; reflexivity.
+Qed.
